@@ -1,6 +1,7 @@
 package stmtrun
 
 import (
+	"context"
 	"database/sql"
 	"encoding/hex"
 	"errors"
@@ -179,8 +180,16 @@ func rowsToArgs(rows [][]fakedb.TaggedValue) [][]Arg {
 	return out
 }
 
+// runner is what *sql.DB and *sql.Conn have in common.
+type runner interface {
+	ExecContext(ctx context.Context, query string, args ...interface{}) (sql.Result, error)
+	QueryContext(ctx context.Context, query string, args ...interface{}) (*sql.Rows, error)
+	PrepareContext(ctx context.Context, query string) (*sql.Stmt, error)
+}
+
 // execute runs one statement on the bare fakedb and records what came back.
-func execute(db *sql.DB, q string, args []Arg, prepared bool) Obs {
+func execute(db runner, q string, args []Arg, prepared bool) Obs {
+	ctx := context.Background()
 	goArgs := make([]interface{}, len(args))
 	for i, a := range args {
 		goArgs[i] = argGo(a)
@@ -191,7 +200,7 @@ func execute(db *sql.DB, q string, args []Arg, prepared bool) Obs {
 		var st *sql.Stmt
 		var err error
 		if prepared {
-			if st, err = db.Prepare(q); err != nil {
+			if st, err = db.PrepareContext(ctx, q); err != nil {
 				o = Obs{Kind: "err", Errno: errno(err), ErrText: err.Error()}
 				return nil
 			}
@@ -202,7 +211,7 @@ func execute(db *sql.DB, q string, args []Arg, prepared bool) Obs {
 			if prepared {
 				rows, err = st.Query(goArgs...)
 			} else {
-				rows, err = db.Query(q, goArgs...)
+				rows, err = db.QueryContext(ctx, q, goArgs...)
 			}
 			if err != nil {
 				o = Obs{Kind: "err", Errno: errno(err), ErrText: err.Error()}
@@ -247,7 +256,7 @@ func execute(db *sql.DB, q string, args []Arg, prepared bool) Obs {
 		if prepared {
 			res, err = st.Exec(goArgs...)
 		} else {
-			res, err = db.Exec(q, goArgs...)
+			res, err = db.ExecContext(ctx, q, goArgs...)
 		}
 		if err != nil {
 			o = Obs{Kind: "err", Errno: errno(err), ErrText: err.Error()}
